@@ -21,11 +21,13 @@ OPS = "+*-"
 NAMES = {"+": "p", "*": "m", "-": "s"}
 
 
-def grammar(k, pmarks, tmarks):
+def grammar(k, pmarks, tmarks, nmark=False):
     ops = OPS[:k]
     alts = [f"E {NAMES[o]} E" + (" {dynamic}" if pm else "")
             for o, pm in zip(ops, pmarks)]
-    lines = ["E: " + " | ".join(alts) + " | n;", "terminals"]
+    # the atom production is reduced in conflict-free states
+    lines = ["E: " + " | ".join(alts) + " | n" + (" {dynamic}" if nmark else "")
+             + ";", "terminals"]
     for o, tm in zip(ops, tmarks):
         lines.append(f'{NAMES[o]}: "{o}"' + (" {dynamic}" if tm else "") + ";")
     lines.append('n: "n";')
@@ -42,7 +44,7 @@ def units(tier, seed):
     out = []
     for row in plan(tier, seed):
         k = row["k"]
-        marks = list(itertools.product((False, True), repeat=2 * k))
+        marks = list(itertools.product((False, True), repeat=2 * k + 1))
         win = row.get("win")
         idxs = list(range(len(marks))) if win is None else list(
             spaces.window(len(marks), win[0], win[1]))
@@ -167,8 +169,9 @@ def prec_filter(table, g):
 
 def run_unit(u):
     k = u["k"]
-    pmarks, tmarks = u["marks"][:k], u["marks"][k:]
-    text = grammar(k, pmarks, tmarks)
+    pmarks, tmarks = u["marks"][:k], u["marks"][k:2 * k]
+    nmark = u["marks"][2 * k]
+    text = grammar(k, pmarks, tmarks, nmark)
     mon = Monitor()
     judge = Judge(PROP, KNOWN)
     st = collections.Counter()
@@ -274,7 +277,7 @@ def run_unit(u):
                                 {"problems": [list(map(str, x)) for x in probs[:5]]},
                                 case("lr", s, "accept"))
     # ---- precedence-encoding filter (all marked) ---------------------------
-    if all(u["marks"]):
+    if all(u["marks"][:2 * k]) and not nmark:
         for wo in weak_orderings(list(ops)):
             for assocs in itertools.product(("left", "right"), repeat=len(wo)):
                 table = {}
